@@ -8,7 +8,7 @@ from ..report import Run
 from ..skel import recv_path, render, root_attr, skeletons, term_classes
 from ..symex import (Alt, CondI, CtxV, Hole, JoinP, Lit, Obj, One, Opaque, Phi, Rep, RepI, SlotP, Str, Sym, show,
                      walk_parts)
-from .c16 import NO_TABLE, traversal_shapes, traversed_attrs
+from .c16 import NO_TABLE, _allowed_test, traversal_shapes, traversed_attrs
 
 
 def self_attrs_in(v, depth=0, acc=None) -> set[str]:
@@ -110,7 +110,7 @@ def check(program: Program, run: Run) -> None:
         "fields_()/tables_ see every reference (R3). Membership answers on generated objects are not computed.")
     run.rule("R1 hash-key subset of eq-key (attribute-wise, through nested get_sql)")
     run.rule("R2 __eq__ returns bool and compares the same attribute on both sides; __ne__ is its negation; set/dict element classes have a bool __eq__")
-    run.rule("R3 rendered child attributes are traversed by nodes_()")
+    run.rule("R3 rendered child attributes are traversed by nodes_(); the traversal of a child is guarded only by type/None tests on that child")
     eqs = program.definitions_of("__eq__")
     hashes = program.definitions_of("__hash__")
     run.analysed = {"eq_definitions": len(eqs), "hash_definitions": len(hashes)}
@@ -242,3 +242,35 @@ def check(program: Program, run: Run) -> None:
                 reported.add((owner, a))
                 run.finding(f"C17/not-traversed:{owner}:{a}", f"{owner} renders its child `{a}` but nodes_() ({nf.qualname if nf else 'Node.nodes_'}) does not traverse it: fields_()/tables_ miss the references inside, so join/foreign-table validation cannot see them",
                             where=nf.loc() if nf else "", rule="R3")
+
+
+    # R3b: a traversal that is skipped when the node *looks* like it has no terms misses what the test does not see
+    # (a nested row wrapped later, a subquery that reports no fields)
+    nt = 0
+    for nf in program.definitions_of("nodes_"):
+        parents = {}
+        for n in ast.walk(nf.node):
+            for ch in ast.iter_child_nodes(n):
+                parents[ch] = n
+        for n in ast.walk(nf.node):
+            if not (isinstance(n, ast.Call) and isinstance(n.func, ast.Attribute) and n.func.attr == "nodes_"):
+                continue
+            nt += 1
+            x = n
+            while x in parents:
+                par = parents[x]
+                tests = []
+                if isinstance(par, (ast.If, ast.IfExp)) and x is not par.test:
+                    tests.append(par.test)
+                elif isinstance(par, (ast.ListComp, ast.GeneratorExp, ast.SetComp)):
+                    for g in par.generators:
+                        tests += g.ifs
+                for t in tests:
+                    if not _allowed_test(t):
+                        run.ob("C17/R3 traversal of a child is unconditional", f"{nf.qualname}:{ast.unparse(t)[:50]}", False, where=nf.loc(n))
+                        run.finding(f"C17/conditional-traversal:{nf.qualname}", f"{nf.qualname} descends into `{ast.unparse(n.func.value)[:40]}` only when `{ast.unparse(t)[:60]}` holds: "
+                                    "references inside children for which the test is false are invisible to fields_()/tables_, so join and foreign-table validation depend on how the node was spelled", where=nf.loc(n), rule="R3")
+                x = par
+    run.ob("C17/R3 traversal of a child is unconditional", "all nodes_ definitions", True, detail=f"{nt} nested nodes_() calls examined", nontrivial=False)
+    if nt < 25:
+        raise AnalysisError(f"instance count below floor: nested nodes_ calls {nt}")
